@@ -218,6 +218,8 @@ Ltac xproj :=
 Ltac xnorm :=
   repeat (progress cbn [xadd xmul xsub xneg xisnan xisinf orb andb negb] ||
           match goal with
+          | |- context [?a * 0] => rewrite (Qcmult_0_r a)
+          | |- context [0 * ?a] => rewrite (Qcmult_0_l a)
           | |- context [xeqb (XF 0) (XF 0)] => change (xeqb (XF 0) (XF 0)) with true
           | |- context [xeqb (XF ?e) (XF 0)] => rewrite (xeqb_F0_pos e) by solve_pos
           | |- context [xdiv (XF ?a) (XF ?b)] =>
